@@ -42,6 +42,15 @@ def error_lines(res):
 
 
 def evaluate(so, plans, need_shadow=True):
+    inh = [p for p in plans if p.mode == "inherent"]
+    if inh:
+        # inherent mode: the macro program may only mention items of probes that match some block; ask the shadow program first
+        sres = C.run_programs(so, [("s", p.shadow_program()) for p in inh])
+        for p, s in zip(inh, sres):
+            ok = s["rc"] == 0 and s.get("ran")
+            st = parse_table(s["stdout"]) if ok else {}
+            p.notes["probe_pos"] = [("1" in st.get(pi, [])) for pi in range(len(p.probes))]
+            p.notes["shadow_result"] = s
     progs = []
     for i, p in enumerate(plans):
         progs.append((f"m{i}", p.macro_program()))
